@@ -26,8 +26,8 @@ import (
 //	time       <= TimeLimit                      per input
 //	depth      <= DepthLimit                     stack frames at a connection read
 const (
-	AllocA    = 64
-	AllocB    = 8 << 20
+	AllocA    = 128
+	AllocB    = 16 << 20
 	HardAlloc = 768 << 20 // a worker aborts the call beyond this (it would not stop by itself)
 )
 
@@ -44,6 +44,22 @@ func cpuTime() time.Duration {
 		return 0
 	}
 	return time.Duration(ru.Utime.Nano() + ru.Stime.Nano())
+}
+
+// threadCPU is the CPU time the kernel has accounted to one thread of this
+// process (first field of /proc/self/task/<tid>/schedstat, nanoseconds); -1 if
+// it cannot be read. The measured call runs on a locked OS thread, so this is
+// the decoder's own CPU time, without the garbage collector or the watchdog.
+func threadCPU(tid int32) time.Duration {
+	b, err := os.ReadFile(fmt.Sprintf("/proc/self/task/%d/schedstat", tid))
+	if err != nil {
+		return -1
+	}
+	var ns int64
+	if _, err := fmt.Sscan(string(b), &ns); err != nil {
+		return -1
+	}
+	return time.Duration(ns)
 }
 
 const (
@@ -78,8 +94,16 @@ func measure(j *Job, in *Input, tmp string, abort func(kind, detail string)) mea
 	base := totalAlloc()
 	t0 := time.Now()
 	cpu0 := cpuTime()
+	var tid int32
+	var thr0 time.Duration = -1
+	started := make(chan struct{})
 	go func() {
 		defer close(done)
+		runtime.LockOSThread()
+		defer runtime.UnlockOSThread()
+		tid = int32(syscall.Gettid())
+		thr0 = threadCPU(tid)
+		close(started)
 		defer func() {
 			if r := recover(); r != nil {
 				m.panicV = fmt.Sprint(r)
@@ -90,8 +114,10 @@ func measure(j *Job, in *Input, tmp string, abort func(kind, detail string)) mea
 		}()
 		m.out = execute(j, in, tmp)
 	}()
+	<-started
 	timer := time.NewTimer(WallLimit)
 	tick := time.NewTicker(5 * time.Millisecond)
+	nTick := 0
 	defer tick.Stop()
 	defer timer.Stop()
 loop:
@@ -103,9 +129,19 @@ loop:
 			m.timeout = true
 			break loop
 		case <-tick.C:
-			if cpuTime()-cpu0 > TimeLimit {
-				m.timeout = true
-				break loop
+			nTick++
+			if nTick%8 == 0 {
+				if thr0 >= 0 {
+					if now := threadCPU(tid); now >= 0 && now-thr0 > TimeLimit {
+						m.timeout = true
+						break loop
+					}
+				}
+				// whole-process CPU as a backstop (decoder work on other goroutines)
+				if cpuTime()-cpu0 > 6*TimeLimit {
+					m.timeout = true
+					break loop
+				}
 			}
 			if a := totalAlloc() - base; a > HardAlloc {
 				m.alloc = a
@@ -174,6 +210,27 @@ func judge(j *Job, in *Input, m *measured) *Result {
 	return r
 }
 
+// sameViolation: a difference is reproduced if the second run violates the same
+// obligations, or if both runs exhaust a resource (an input near a limit may
+// be stopped by the time limit once and by the allocation bound the next time).
+func sameViolation(a, b []string) bool {
+	if strings.Join(a, ",") == strings.Join(b, ",") {
+		return true
+	}
+	res := func(l []string) bool {
+		if len(l) == 0 {
+			return false
+		}
+		for _, k := range l {
+			if k != KSpin && k != KAlloc && k != KCrash {
+				return false
+			}
+		}
+		return true
+	}
+	return res(a) && res(b)
+}
+
 // WorkerMain is the body of a worker process: jobs (JSON lines) on stdin,
 // results (JSON lines) on fd 3. A call that does not return, or allocates
 // beyond HardAlloc, is reported and the process exits (the goroutine cannot be
@@ -238,7 +295,7 @@ func WorkerMain() {
 				emit(r2)
 				os.Exit(0)
 			}
-			if strings.Join(r2.Kinds, ",") != strings.Join(r.Kinds, ",") {
+			if !sameViolation(r.Kinds, r2.Kinds) {
 				r.Flaky = true
 				r.Detail = fmt.Sprintf("first run: %v (%s); second run: %v (%s)", r.Kinds, r.Detail, r2.Kinds, r2.Detail)
 			}
@@ -283,6 +340,10 @@ type Pool struct {
 	Tmp     string
 	Workers int
 	Spawned int64
+	// Skip, if set, is asked before a job is dispatched (used to stop paying the
+	// time limit again and again for a class already confirmed to spin).
+	Skip    func(j *Job) bool
+	Skipped int64
 }
 
 func (p *Pool) spawn() (*child, error) {
@@ -413,6 +474,10 @@ func (p *Pool) Run(jobs []*Job, sink func(j *Job, r *Result)) error {
 					return
 				}
 				j := jobs[i]
+				if p.Skip != nil && p.Skip(j) {
+					atomic.AddInt64(&p.Skipped, 1)
+					continue
+				}
 				cc := get()
 				if cc == nil {
 					return
@@ -433,9 +498,27 @@ func (p *Pool) Run(jobs []*Job, sink func(j *Job, r *Result)) error {
 						c.kill()
 						c = nil
 					}
-					if strings.Join(r2.Kinds, ",") != strings.Join(r.Kinds, ",") {
-						r.Flaky = true
-						r.Detail = fmt.Sprintf("first run: %v %s; second run: %v %s", r.Kinds, r.Detail, r2.Kinds, r2.Detail)
+					if !sameViolation(r.Kinds, r2.Kinds) {
+						if len(r2.Kinds) == 0 && len(r.Kinds) == 1 && r.Kinds[0] == KSpin {
+							// a time-limit hit that does not repeat: the third run decides
+							// between a decoder near the limit and a busy machine
+							cc = get()
+							if cc == nil {
+								return
+							}
+							r3, alive3 := p.one(cc, j)
+							if !alive3 {
+								c.kill()
+								c = nil
+							}
+							if len(r3.Kinds) == 0 {
+								r3.Noise = "time limit hit once in three runs (" + r.Detail + "); ignored"
+								r = r3
+							}
+						} else {
+							r.Flaky = true
+							r.Detail = fmt.Sprintf("first run: %v %s; second run: %v %s", r.Kinds, r.Detail, r2.Kinds, r2.Detail)
+						}
 					}
 				}
 				sink(j, r)
